@@ -547,7 +547,8 @@ func (x *Exec) backEdge(fr *Frame, li *loopInfo, from *ssa.BasicBlock, st *State
 	// declared loop frame: objects outside it are unchanged since the loop head
 	if li.frame != nil && li.headState != nil {
 		for _, name := range li.frameNames {
-			for an, srt := range x.heapSorts {
+			for _, an := range x.sortedHeapNames() {
+				srt := x.heapSorts[an]
 				if !(an == name || strings.HasPrefix(an, name+".") || strings.HasPrefix(an, name+"|")) {
 					continue
 				}
